@@ -56,7 +56,45 @@ def generate(run_seed, tier):
     return {"kind": "save", "profile": jp}
 
 
+def gen_csv_bulk(rng):
+    """a large cast vote record (tens of thousands of rows): validation and grouping must hold across the whole file,
+    wherever the reader happens to cut it into pieces"""
+    n_rank = rng.randint(1, 3)
+    layout = ["id"] + ["rank"] * n_rank
+    if rng.random() < 0.5:
+        layout = ["rank"] * n_rank + ["id"]
+    pats = [[rng.choice(["Ann", "Bob Lee", "O'Hara", ""]) for _ in range(n_rank)] for _ in range(rng.randint(2, 5))]
+    n = rng.choice([50001, 60000, 100003, 131073])
+    fault = G.wchoice(rng, [(None, 2), ("dup_id", 4), ("blank_id", 3)])
+    far = rng.choice([(0, n - 1), (1, n // 2 + 7), (n // 2 - 1, n // 2), (49999, 50000), (65535, 65536)])
+    far = (min(far[0], n - 1), min(far[1], n - 1))
+    return {"kind": "csv", "bulk": {"n": n, "patterns": pats}, "header": ["voter id" if t == "id" else "rank%d" % i for i, t in enumerate(layout)],
+            "layout": layout, "rows": [], "delim": ",", "crlf": False, "rank_cols": [i for i, t in enumerate(layout) if t == "rank"],
+            "id_col": layout.index("id"), "weight_col": None, "fault": fault, "fault_row": far[1], "fault_row2": far[0], "id_style": "str"}
+
+
+def expand_rows(case):
+    b = case.get("bulk")
+    if not b:
+        return [list(r) for r in case["rows"]]
+    rows = []
+    pats = b["patterns"]
+    for i in range(b["n"]):
+        pat = pats[(i * 7 + i // 3) % len(pats)]
+        row, ri = [], 0
+        for t in case["layout"]:
+            if t == "rank":
+                row.append(pat[ri])
+                ri += 1
+            else:
+                row.append("v%06d" % i)
+        rows.append(row)
+    return rows
+
+
 def gen_csv(rng):
+    if rng.random() < 0.002:
+        return gen_csv_bulk(rng)
     n_rank = rng.randint(1, 6)
     cols = ["rank%d" % (i + 1) for i in range(n_rank)]
     has_id = rng.random() < 0.45
@@ -177,7 +215,7 @@ def shrink_steps(case):
 
 # --------------------------------------------------------------------------------------------- csv
 def write_csv(case, path):
-    rows = [list(r) for r in case["rows"]]
+    rows = expand_rows(case)
     f = case["fault"]
     if f == "blank_id":
         rows[case["fault_row"]][case["id_col"]] = ""
@@ -415,6 +453,8 @@ def execute(case, trace=False):
     f = case.get("fault")
     if f:
         faults["fault:" + case["kind"] + ":" + f] = 1
+    if case["kind"] == "csv" and case.get("bulk"):
+        faults["bulk_file_rows_over_50000"] = 1
     if case["kind"] == "csv":
         if any(c == "" for r in case["rows"] for t, c in zip(case["layout"], r) if t == "rank"):
             faults["blank_rank_cells"] = 1
